@@ -1,5 +1,59 @@
+/-
+  C17 — Attribute names map to the wire and back without loss.
+  Property theorems only (plus non-vacuity examples); helper lemmas are in Proofs/C17.lean.
+  All statements hold for every string type and every choice of the string operations (`StrOps`, no
+  law assumed), every map dictionary, every converter set, every identity / statement (any lengths).
+-/
 import PysamlModel.Model.AttrConv
 import PysamlModel.Model.AttrCode
 import PysamlModel.Spec.C17
+import PysamlModel.Proofs.C17
+
 namespace C17
+open AttrConv C17Spec
+
+variable {α : Type} [DecidableEq α]
+
+/-- SENDING.  The model's answer always meets `specToWire`: every identity entry whose key the
+    sending map declares goes out under the declared wire name, with the map's name format, the key
+    as friendly name and exactly the given values; a refusal happens only when some value is not a
+    list of strings; `None` only when no map has the name format.  Side condition: the sending map
+    does not declare two different wire names for local names that differ only in case. -/
+theorem C17_model_meets_spec_wire (ops : StrOps α) (maps : List (MapDict α)) (s : Sender α)
+    (ava : List (α × LVals α)) (hmaps : ∀ m ∈ maps, isMap m = true)
+    (hcoh : ∀ m, sendingMap maps s = some m → coherentDecl (sendDecl ops m) = true) :
+    specToWire ops (maps.map (declMap ops)) s ava
+      ((sender (acFactory ops maps) s).map fun c => toWire ops c ava) = true := by
+  rw [acFactory_eq ops maps hmaps, sender_map]
+  unfold specToWire
+  rw [senderMap_map]
+  cases hs : sendingMap maps s with
+  | none => rfl
+  | some m =>
+    simp only [Option.map_some]
+    cases hw : toWire ops (convOf ops m) ava with
+    | raised => exact toWire_raised ops _ ava hw
+    | ok l => exact toWire_meets ops m (hcoh m hs) ava l hw
+
+/-- RECEIPT.  The model's answer always meets `specToLocal`: a wire attribute whose name the map for
+    its name format declares appears under the declared local name with its values in order, white
+    space trimmed; an attribute whose name or name format no map declares is dropped, or, when
+    unknown attributes are allowed, appears under its wire name; nothing else appears.  Side
+    condition: no two maps of the set have the same name format. -/
+theorem C17_model_meets_spec_local (ops : StrOps α) (maps : List (MapDict α)) (allow : Bool)
+    (attrs : List (WireAttr α)) (hmaps : ∀ m ∈ maps, isMap m = true)
+    (hd : distinctFormats (maps.map (·.identifier)) = true) :
+    specToLocal ops (maps.map (declMap ops)) allow attrs
+      (listToLocal ops (acFactory ops maps) allow attrs) = true := by
+  rw [acFactory_eq ops maps hmaps]
+  unfold specToLocal
+  simp only
+  split
+  · rfl
+  next hany =>
+    have hany' : (attrs.map (expectLocal ops (maps.map (declMap ops)) allow)).any isAny = false := by
+      simpa using hany
+    rw [listToLocal, localGo_meets ops maps hd allow attrs [] hany']
+    exact dictEq_refl _
+
 end C17
